@@ -154,13 +154,13 @@ def make (c):
                     g ['taper'][2] = float (np.linalg.norm (p2 - p1) / g ['n'] * (1.2 + 1.3 * ((c ['i'] * 7919) % 100) / 100.0))
     n = len (spec ['geo'])
     rd = np.random.default_rng ([c ['seed'], 61, c ['i']])
-    if n >= 2 and not sym and rd.random () < 0.25 and not any (g.get ('taper') for g in spec ['geo']):
+    if n >= 2 and not sym and rd.random () < 0.35 and not any (g.get ('taper') for g in spec ['geo']):
         # one object (or two) of lossy or insulated conductor, the others bare: which wire carries the load must
         # not depend on order or direction (explicit tags then realise the order of the objects)
         objs = [int (x) for x in rd.permutation (n) [: int (rd.integers (1, min (n, 3)))]]
         kind = str (rd.choice (['skin', 'skin', 'ins']))
         spec ['dist'] = dict (objs = objs, kind = kind, cond = float (10 ** rd.uniform (3, 6)), eps = float (rd.uniform (1.5, 4)), rfac = float (rd.uniform (1.3, 3)))
-        if kind == 'skin' and rd.random () < 0.5:
+        if kind == 'skin' and rd.random () < 0.65:
             # every wire of its own material (copper arms on a resistance-wire section): the loss of a junction pulse is
             # that of its two halves, each of the material of the wire it lies on
             spec ['dist']['objs']  = list (range (n))
@@ -198,8 +198,8 @@ def add_var (c, rng, spec):
                         , pts = rng.normal (size = (2, 3)).tolist (), pdist = [float (rng.uniform (1.5, 4)), float (rng.uniform (4, 30))])
     # a tapered wire is reversed in the first reversal variant (taper end 1 <-> 2)
     for k, g in enumerate (spec ['geo']):
-        if g.get ('taper'):
-            spec ['var']['masks'][0][k] = 1
+        if g.get ('taper') or g ['k'] == 'a':
+            spec ['var']['masks'][0][k] = 1     # (and an arc is given from its other end)
     return gen.clean (spec)
 # end def add_var
 
